@@ -66,7 +66,7 @@ void frequent_items_sketch<T, W, H, E, A>::update(T&& item, W weight) {
 
 template<typename T, typename W, typename H, typename E, typename A>
 void frequent_items_sketch<T, W, H, E, A>::merge(const frequent_items_sketch& other) {
-  if (other.is_empty()) return;
+  if (other.get_total_weight() == 0) return;
   const W merged_total_weight = total_weight + other.get_total_weight(); // for correction at the end
   for (auto it: other.map) {
     update(it.first, it.second);
@@ -77,7 +77,7 @@ void frequent_items_sketch<T, W, H, E, A>::merge(const frequent_items_sketch& ot
 
 template<typename T, typename W, typename H, typename E, typename A>
 void frequent_items_sketch<T, W, H, E, A>::merge(frequent_items_sketch&& other) {
-  if (other.is_empty()) return;
+  if (other.get_total_weight() == 0) return;
   const W merged_total_weight = total_weight + other.get_total_weight(); // for correction at the end
   for (auto it: other.map) {
     update(std::move(it.first), it.second);
@@ -163,7 +163,8 @@ auto frequent_items_sketch<T, W, H, E, A>::get_frequent_items(frequent_items_err
 template<typename T, typename W, typename H, typename E, typename A>
 template<typename SerDe>
 void frequent_items_sketch<T, W, H, E, A>::serialize(std::ostream& os, const SerDe& sd) const {
-  const uint8_t preamble_longs = is_empty() ? PREAMBLE_LONGS_EMPTY : PREAMBLE_LONGS_NONEMPTY;
+  const bool is_empty = total_weight == 0; // a purge can remove all items while weight and offset remain
+  const uint8_t preamble_longs = is_empty ? PREAMBLE_LONGS_EMPTY : PREAMBLE_LONGS_NONEMPTY;
   write(os, preamble_longs);
   const uint8_t serial_version = SERIAL_VERSION;
   write(os, serial_version);
@@ -174,13 +175,13 @@ void frequent_items_sketch<T, W, H, E, A>::serialize(std::ostream& os, const Ser
   const uint8_t lg_cur_size = map.get_lg_cur_size();
   write(os, lg_cur_size);
   const uint8_t flags_byte(
-      (is_empty() ? 1 << flags::IS_EMPTY_1 : 0)
-    | (is_empty() ? 1 << flags::IS_EMPTY_2 : 0)
+      (is_empty ? 1 << flags::IS_EMPTY_1 : 0)
+    | (is_empty ? 1 << flags::IS_EMPTY_2 : 0)
   );
   write(os, flags_byte);
   const uint16_t unused16 = 0;
   write(os, unused16);
-  if (!is_empty()) {
+  if (!is_empty) {
     const uint32_t num_items = map.get_num_active();
     write(os, num_items);
     const uint32_t unused32 = 0;
@@ -210,7 +211,7 @@ void frequent_items_sketch<T, W, H, E, A>::serialize(std::ostream& os, const Ser
 template<typename T, typename W, typename H, typename E, typename A>
 template<typename SerDe>
 size_t frequent_items_sketch<T, W, H, E, A>::get_serialized_size_bytes(const SerDe& sd) const {
-  if (is_empty()) return PREAMBLE_LONGS_EMPTY * sizeof(uint64_t);
+  if (total_weight == 0) return PREAMBLE_LONGS_EMPTY * sizeof(uint64_t);
   size_t size = PREAMBLE_LONGS_NONEMPTY * sizeof(uint64_t) + map.get_num_active() * sizeof(W);
   for (auto it: map) size += sd.size_of_item(it.first);
   return size;
@@ -223,8 +224,9 @@ auto frequent_items_sketch<T, W, H, E, A>::serialize(unsigned header_size_bytes,
   vector_bytes bytes(size, 0, map.get_allocator());
   uint8_t* ptr = bytes.data() + header_size_bytes;
   uint8_t* end_ptr = ptr + size;
+  const bool is_empty = total_weight == 0; // a purge can remove all items while weight and offset remain
 
-  const uint8_t preamble_longs = is_empty() ? PREAMBLE_LONGS_EMPTY : PREAMBLE_LONGS_NONEMPTY;
+  const uint8_t preamble_longs = is_empty ? PREAMBLE_LONGS_EMPTY : PREAMBLE_LONGS_NONEMPTY;
   ptr += copy_to_mem(preamble_longs, ptr);
   const uint8_t serial_version = SERIAL_VERSION;
   ptr += copy_to_mem(serial_version, ptr);
@@ -235,12 +237,12 @@ auto frequent_items_sketch<T, W, H, E, A>::serialize(unsigned header_size_bytes,
   const uint8_t lg_cur_size = map.get_lg_cur_size();
   ptr += copy_to_mem(lg_cur_size, ptr);
   const uint8_t flags_byte(
-      (is_empty() ? 1 << flags::IS_EMPTY_1 : 0)
-    | (is_empty() ? 1 << flags::IS_EMPTY_2 : 0)
+      (is_empty ? 1 << flags::IS_EMPTY_1 : 0)
+    | (is_empty ? 1 << flags::IS_EMPTY_2 : 0)
   );
   ptr += copy_to_mem(flags_byte, ptr);
   ptr += sizeof(uint16_t); // unused
-  if (!is_empty()) {
+  if (!is_empty) {
     const uint32_t num_items = map.get_num_active();
     ptr += copy_to_mem(num_items, ptr);
     ptr += sizeof(uint32_t); // unused
